@@ -108,9 +108,9 @@ Definition entry_corr (x : sx) : sx :=
   let f := if oct_R radius =? radius then a else kernel Fixed data mask radius percent in
   L [of_Zss a; of_bool (check_median data mask radius percent f); of_Zss (count_img data mask radius)].
 
-(* (variant intlike data mask radius percent) -> (0 out counts ranked) | (1) declined | (2) IndexError *)
+(* (variant intlike data mask radius percent orders) -> (0 out counts ranked) | (1) declined | (2) IndexError *)
 Definition entry_wcorr (x : sx) : sx :=
-  match wrapper (as_variant (arg 0 x)) (as_bool (arg 1 x)) (as_Zss (arg 2 x)) (as_boolss (arg 3 x))
+  match wrapper (as_variant (arg 0 x)) (as_bool (arg 1 x)) (as_orders (arg 6 x)) (as_Zss (arg 2 x)) (as_boolss (arg 3 x))
                 (as_Z (arg 4 x)) (as_Z (arg 5 x)) with
   | WOut b o => L [I 0; of_Zss o; of_Zss (count_img (as_Zss (arg 2 x)) (as_boolss (arg 3 x)) (as_Z (arg 4 x)));
                    of_bool b]
